@@ -413,3 +413,11 @@ def sai_replay(inputs, clause):
 
 
 sort_and_index.replay = sai_replay
+
+
+def extra_units():
+    """"whenever the status file reports success the output ... contains every record": a worker job keeps its temporary BAM
+    iff any of its tasks wrote a molecule, and reports the sum of all its tasks (C05's unit, re-verified under this property)"""
+    from contracts import c05
+    from pyvc.units import share
+    return [share(c05.run_tagging_tasks, PROP)]
